@@ -369,6 +369,30 @@ pub fn run_case(case: &Case, mode: &Mode) -> CaseReport {
         }
         classes(m, &prog, &plan, &exp, &mut rep);
         if !vs.is_empty() {
+            // sampled plan spaces: shrink the failing plan greedily (drop failing points one at a time
+            // while the violation persists), so that the replay carries a minimal fault set
+            let mut plan = plan;
+            let mut vs = vs;
+            let mut rr = rr;
+            if !exhaustive {
+                let mut i = 0;
+                while i < plan.bad.len() {
+                    let mut smaller = plan.clone();
+                    smaller.bad.remove(i);
+                    let exp2 = model::interpret(&prog, &smaller);
+                    let rr2 = run_plain(case, &smaller);
+                    rep.runs += 1;
+                    let obs2 = Obs { prog: &prog, exp: &exp2, events: &rr2.events, outcome: rr2.outcome.as_ref() };
+                    let vs2 = check(m, &obs2, &rr2);
+                    if !vs2.is_empty() {
+                        plan = smaller;
+                        vs = vs2;
+                        rr = rr2;
+                    } else {
+                        i += 1;
+                    }
+                }
+            }
             rep.violation(&plan, json!({"panic": rr.panic_msg, "outcome": rr.outcome.as_ref().map(|o| o.to_json())}), &vs, &rr.events);
             if rep.violations.len() >= 1 && !mode.strict {
                 // plans are ordered by size: the first failing plan is minimal; stop here
